@@ -44,16 +44,20 @@ structure Built (r : Recs) (sf : SymFile) : Prop where
   pubs : sf.pubs = r.pubs.mergeSort pubLe
   files : sf.files = r.files
   origins : sf.origins = r.origins
+  wfd : winTable r.win4 = .ok sf.wfd
+  wfpo : winTable r.win0 = .ok sf.wfpo
 
 theorem build_built {r : Recs} {sf : SymFile} (h : build r = .ok sf) : Built r sf := by
   unfold build at h
   simp only [finishAll_ok, safeP_ok _ (funcInput_wf _)] at h
   split at h
   · cases h
-  · split at h
+  · rename_i wfd hwfd
+    split at h
     · cases h
-    · cases h
-      exact ⟨rfl, rfl, rfl, rfl, rfl⟩
+    · rename_i wfpo hwfpo
+      cases h
+      exact ⟨rfl, rfl, rfl, rfl, rfl, hwfd, hwfpo⟩
 
 /-! ### `binary_search_by` -/
 
